@@ -149,6 +149,14 @@ Lemma xp_postfix_S f e ts :
     obind (xp_expr f (tl ts)) (fun i ts1 => if xp_at_punct b#"]" ts1 then xp_postfix f (EItem e i) (tl ts1) else Err EParse)
   else if xp_at_punct b#"|" ts then
     obind (xp_filters (xp_expr f) f e ts) (fun e' ts1 => xp_postfix f e' ts1)
+  else if xp_at_punct b#"." ts then
+    match tl ts with
+    | XT XName a :: ts1 =>
+        if xp_at_punct b#"(" ts1 then
+          obind (xp_list (xp_expr f) f b#")" (tl ts1)) (fun args ts2 => xp_postfix f (EModCall e a args) ts2)
+        else xp_postfix f (EAttr e a) ts1
+    | _ => Err EParse
+    end
   else Ok (e, ts).
 Proof. eq_crush. Qed.
 
@@ -289,8 +297,20 @@ Proof.
 Qed.
 
 Lemma postfix_stop f e rest :
-  xp_at_punct b#"[" rest = false -> xp_at_punct b#"|" rest = false -> xp_postfix (S f) e rest = Ok (e, rest).
-Proof. intros H1 H2. rewrite xp_postfix_S, H1, H2. reflexivity. Qed.
+  xp_at_punct b#"[" rest = false -> xp_at_punct b#"|" rest = false -> xp_at_punct b#"." rest = false ->
+  xp_postfix (S f) e rest = Ok (e, rest).
+Proof. intros H1 H2 H3. rewrite xp_postfix_S, H1, H2, H3. reflexivity. Qed.
+
+(* what must not follow an operand: never an opening parenthesis (it would make a call of a name); a dot
+   only matters when the printed form ends in a bare name chain (flag c) *)
+Definition osc (c : bool) (rest : list xtok) : Prop :=
+  xp_at_punct b#"(" rest = false /\ (c = true -> xp_at_punct b#"." rest = false).
+Lemma osc_of_simple c rest : ok_simple rest -> osc c rest.
+Proof. intros [H1 H2]. split; [exact H1|intros _; exact H2]. Qed.
+Lemma osc_weaken c rest : osc true rest -> osc c rest.
+Proof. intros [H1 H2]. split; [exact H1|intros _; apply H2; reflexivity]. Qed.
+Lemma osc_true_simple rest : osc true rest -> ok_simple rest.
+Proof. intros [H1 H2]. split; [exact H1|apply H2; reflexivity]. Qed.
 
 Lemma at_punct_same c r : xp_at_punct c (pp_P c :: r) = true.
 Proof. unfold xp_at_punct, pp_P. apply bytes_eqb_refl. Qed.
@@ -325,10 +345,10 @@ Qed.
 (* 4. The four statements, for an arbitrary token list t that prints e                          *)
 (* ------------------------------------------------------------------------------------------- *)
 
-Definition gS (t : list xtok) (e : expr) : Prop :=
-  forall rest, ok_simple rest -> ev (fun f => xp_simple f (t ++ rest) = Ok (e, rest)).
-Definition gO (t : list xtok) (e : expr) : Prop :=
-  forall rest res, ok_simple rest -> res <> OutOfFuel ->
+Definition gS (c : bool) (t : list xtok) (e : expr) : Prop :=
+  forall rest, osc c rest -> ev (fun f => xp_simple f (t ++ rest) = Ok (e, rest)).
+Definition gO (c : bool) (t : list xtok) (e : expr) : Prop :=
+  forall rest res, osc c rest -> res <> OutOfFuel ->
     ev (fun f => xp_postfix f e rest = res) -> ev (fun f => xp_operand f (t ++ rest) = res).
 Definition gD (t : list xtok) (e : expr) (lv : nat) : Prop :=
   forall p rest res, prec_start <= p -> p <= lv -> ok_follow rest -> ok_rest (S lv) rest ->
@@ -336,25 +356,31 @@ Definition gD (t : list xtok) (e : expr) (lv : nat) : Prop :=
 Definition gE (t : list xtok) (e : expr) : Prop :=
   forall rest, no_cont rest -> ev (fun f => xp_expr f (t ++ rest) = Ok (e, rest)).
 
-Lemma gS_gO t e : gS t e -> gO t e.
+Lemma gS_weaken c t e : gS false t e -> gS c t e.
+Proof. intros H rest [H1 _]. apply H. split; [exact H1|discriminate]. Qed.
+Lemma gO_weaken c t e : gO false t e -> gO c t e.
+Proof. intros H rest res [H1 _]. apply H. split; [exact H1|discriminate]. Qed.
+
+Lemma gS_gO c t e : gS c t e -> gO c t e.
 Proof.
   intros HS rest res Hs _ [n2 H2]. destruct (HS rest Hs) as [n1 H1].
   exists (S (n1 + n2)). intros f Hf. destruct f as [|f]; [lia|].
   rewrite xp_operand_S, H1 by lia. cbn [obind]. apply H2. lia.
 Qed.
 
-Lemma gO_level t e : gO t e ->
+Lemma gO_level c t e : gO c t e ->
   forall p rest res, ok_follow rest ->
     ev (fun f => xp_loop f p e rest = res) -> ev (fun f => xp_level f p (t ++ rest) = res).
 Proof.
   intros HO p rest res [Hs [Hb Hf]] [n2 H2].
   assert (H1 : ev (fun f => xp_operand f (t ++ rest) = Ok (e, rest))).
-  { apply HO; [exact Hs|discriminate|]. exists 1. intros f Hf1. destruct f as [|f]; [lia|]. apply postfix_stop; assumption. }
+  { apply HO; [apply osc_of_simple, Hs|discriminate|]. exists 1. intros f Hf1. destruct f as [|f]; [lia|].
+    apply postfix_stop; try assumption. apply Hs. }
   destruct H1 as [n1 H1]. exists (S (n1 + n2)). intros f Hle. destruct f as [|f]; [lia|].
   rewrite xp_level_S, H1 by lia. cbn [obind]. apply H2. lia.
 Qed.
 
-Lemma gO_gD t e lv : gO t e -> gD t e lv.
+Lemma gO_gD c t e lv : gO c t e -> gD t e lv.
 Proof. intros HO p rest res _ _ Hfol _ Hloop. eapply gO_level; eassumption. Qed.
 
 Lemma gD_weaken t e lv lv' : lv' <= lv -> gD t e lv -> gD t e lv'.
@@ -379,7 +405,7 @@ Lemma simple_lparen f r :
   obind (xp_expr f r) (fun e ts1 => if xp_at_punct b#")" ts1 then Ok (e, tl ts1) else Err EParse).
 Proof. rewrite xp_simple_S. reflexivity. Qed.
 
-Lemma paren_gS t e : gE t e -> gS (pp_P b#"(" :: t ++ [pp_P b#")"]) e.
+Lemma paren_gS t e : gE t e -> gS false (pp_P b#"(" :: t ++ [pp_P b#")"]) e.
 Proof.
   intros HE rest _.
   destruct (HE (pp_P b#")" :: rest)) as [n Hn]; [apply no_cont_closer; cbn; tauto|].
@@ -492,7 +518,8 @@ Proof.
       apply test_mono; [exact Hple|lia].
     + intros ts. rewrite !xp_operand_S. le_auto; [apply Hs|apply Hq].
     + intros e ts. rewrite !xp_postfix_S. le_auto; try apply He; try apply Hq.
-      apply filters_mono; [exact Hple|lia].
+      * apply filters_mono; [exact Hple|lia].
+      * apply list_mono; [exact Hple|lia].
     + intros ts. rewrite !xp_simple_S. unfold xp_simple_body. le_auto; try apply Hs; try apply He.
       * apply list_mono; [exact Hple|lia].
       * apply chain_mono; [exact Hple|lia].
@@ -520,9 +547,12 @@ Definition pargs (es : list expr) : list xtok :=
   pp_P b#"(" :: pp_join (pp_P b#",") (map (ppar 0) es) ++ [pp_P b#")"].
 Definition poargs (es : list expr) : list xtok := match es with [] => [] | _ => pargs es end.
 
-Lemma pp_EAttr b a : pp px (EAttr b a) = pp px b ++ [pp_P b#"."; pp_N a].
+Definition pdot (e : expr) : list xtok :=
+  if (pp_level e <? pp_lv_postfix) || px e || pp_dot_open e then pp_P b#"(" :: pp px e ++ [pp_P b#")"] else pp px e.
+Lemma pp_EAttr b a : pp px (EAttr b a) = (if pp_is_chain b then pp px b else pdot b) ++ [pp_P b#"."; pp_N a].
 Proof. reflexivity. Qed.
-Lemma pp_EModCall m f es : pp px (EModCall m f es) = pp px m ++ pp_P b#"." :: pp_N f :: pargs es.
+Lemma pp_EModCall m f es :
+  pp px (EModCall m f es) = (if pp_is_chain m then pp px m else pdot m) ++ pp_P b#"." :: pp_N f :: pargs es.
 Proof. reflexivity. Qed.
 Lemma pp_EItem b i : pp px (EItem b i) = ppar pp_lv_postfix b ++ pp_P b#"[" :: ppar 0 i ++ [pp_P b#"]"].
 Proof. reflexivity. Qed.
@@ -558,22 +588,22 @@ Definition stC (e : expr) : Prop :=
     ev (fun f => xp_simple f (pp px e ++ rest) = res).
 Definition stAll (e : expr) : Prop :=
   (pp_is_chain e = true -> stC e) /\
-  (pp_lv_simple <= pp_level e -> gS (pp px e) e) /\
-  (pp_lv_postfix <= pp_level e -> gO (pp px e) e) /\
+  (pp_lv_simple <= pp_level e -> gS (pp_dot_open e) (pp px e) e) /\
+  (pp_lv_postfix <= pp_level e -> gO (pp_dot_open e) (pp px e) e) /\
   gD (pp px e) e (pp_level e) /\
   gE (pp px e) e.
 
 (* from the strongest statement available for the level of e to all the others *)
-Lemma stAll_of_S e : pp_level e = pp_lv_simple -> (pp_is_chain e = true -> stC e) -> gS (pp px e) e -> stAll e.
+Lemma stAll_of_S e : pp_level e = pp_lv_simple -> (pp_is_chain e = true -> stC e) -> gS (pp_dot_open e) (pp px e) e -> stAll e.
 Proof.
-  intros Hl HC HS. pose proof (gS_gO _ _ HS) as HO. pose proof (gO_gD _ _ (pp_level e) HO) as HD.
+  intros Hl HC HS. pose proof (gS_gO _ _ _ HS) as HO. pose proof (gO_gD _ _ _ (pp_level e) HO) as HD.
   split; [exact HC|]. split; [intros _; exact HS|]. split; [intros _; exact HO|]. split; [exact HD|].
   eapply gD_gE; [|exact HD]. rewrite Hl. vm_compute. lia.
 Qed.
 
-Lemma stAll_of_O e : pp_level e = pp_lv_postfix -> pp_is_chain e = false -> gO (pp px e) e -> stAll e.
+Lemma stAll_of_O e : pp_level e = pp_lv_postfix -> pp_is_chain e = false -> gO (pp_dot_open e) (pp px e) e -> stAll e.
 Proof.
-  intros Hl Hc HO. pose proof (gO_gD _ _ (pp_level e) HO) as HD.
+  intros Hl Hc HO. pose proof (gO_gD _ _ _ (pp_level e) HO) as HD.
   split; [intro H; congruence|]. split; [intro H; rewrite Hl in H; vm_compute in H; lia|].
   split; [intros _; exact HO|]. split; [exact HD|].
   eapply gD_gE; [|exact HD]. rewrite Hl. vm_compute. lia.
@@ -602,23 +632,36 @@ Lemma ppar_E e q : stAll e -> gE (ppar q e) e.
 Proof.
   intros (_ & _ & _ & _ & HE). destruct ((pp_level e <? q) || px e) eqn:Ep.
   - rewrite (ppar_paren _ _ Ep).
-    pose proof (paren_gS _ _ HE) as HS. eapply gD_gE; [|apply (gO_gD _ _ prec_start), gS_gO, HS]. lia.
+    pose proof (paren_gS _ _ HE) as HS. eapply gD_gE; [|apply (gO_gD false _ _ prec_start), gS_gO, HS]. lia.
   - destruct (ppar_plain _ _ Ep) as [-> _]. exact HE.
 Qed.
 
-Lemma ppar_S e : stAll e -> gS (ppar pp_lv_simple e) e.
+Lemma ppar_S e : stAll e -> gS (pp_dot_open e) (ppar pp_lv_simple e) e.
 Proof.
   intros (HC & HS & HO & HD & HE). destruct ((pp_level e <? pp_lv_simple) || px e) eqn:Ep.
-  - rewrite (ppar_paren _ _ Ep). apply paren_gS, HE.
+  - rewrite (ppar_paren _ _ Ep). apply gS_weaken, paren_gS, HE.
   - destruct (ppar_plain _ _ Ep) as [-> Hq]. apply HS, Hq.
 Qed.
 
-Lemma ppar_O e : stAll e -> gO (ppar pp_lv_postfix e) e.
+Lemma ppar_O e : stAll e -> gO (pp_dot_open e) (ppar pp_lv_postfix e) e.
 Proof.
   intros (HC & HS & HO & HD & HE). destruct ((pp_level e <? pp_lv_postfix) || px e) eqn:Ep.
-  - rewrite (ppar_paren _ _ Ep). apply gS_gO, paren_gS, HE.
+  - rewrite (ppar_paren _ _ Ep). apply gO_weaken, gS_gO, paren_gS, HE.
   - destruct (ppar_plain _ _ Ep) as [-> Hq]. apply HO, Hq.
 Qed.
+
+(* the base of an attribute access: whatever may follow, a dot included *)
+Lemma pdot_O e : stAll e -> gO false (pdot e) e.
+Proof.
+  intros (HC & HS & HO & HD & HE). unfold pdot.
+  destruct ((pp_level e <? pp_lv_postfix) || px e || pp_dot_open e) eqn:Ep.
+  - apply gS_gO, paren_gS, HE.
+  - apply orb_false_iff in Ep. destruct Ep as [Ep Hopen]. apply orb_false_iff in Ep. destruct Ep as [Hlv _].
+    apply Nat.ltb_ge in Hlv. rewrite <- Hopen. apply HO, Hlv.
+Qed.
+
+Lemma at_punct_diff c d r : bytes_eqb d c = false -> xp_at_punct c (pp_P d :: r) = false.
+Proof. intro H. exact H. Qed.
 
 (* parsed by the climbing loop at level p <= q: parenthesised, or of level at least q and followed by
    something that binds no tighter than its own level *)
@@ -990,7 +1033,7 @@ Proof.
 Qed.
 
 Lemma filter_postfix b fn es : Forall (fun e => gE (ppar 0 e) e) es ->
-  forall rest res, ok_simple rest -> res <> OutOfFuel ->
+  forall rest res, osc false rest -> res <> OutOfFuel ->
   ev (fun f => xp_postfix f (EFilter b fn es) rest = res) ->
   ev (fun f => xp_postfix f b (pp_P b#"|" :: pp_N fn :: poargs es ++ rest) = res).
 Proof.
@@ -1013,9 +1056,9 @@ Proof.
   apply ppar_E. apply HF; [exact Hin|]. apply Hw, Hin.
 Qed.
 
-Lemma chain_gS e : stC e -> gS (pp px e) e.
+Lemma chain_gS e : stC e -> gS true (pp px e) e.
 Proof.
-  intros HC rest [Hp Hd]. apply HC; [exact Hp|]. exists 1. intros g k _ Hk. destruct k as [|k]; [lia|].
+  intros HC rest Hosc. destruct (osc_true_simple _ Hosc) as [Hp Hd]. apply HC; [exact Hp|]. exists 1. intros g k _ Hk. destruct k as [|k]; [lia|].
   rewrite xp_chain_S, Hd. reflexivity.
 Qed.
 
@@ -1044,20 +1087,29 @@ Proof.
       destruct f as [|f]; [lia|]. cbn [pp app]. rewrite simple_name, Hr by exact Hwf. apply Hn. lia. }
     apply stAll_of_S; [reflexivity|intros _; exact HC|apply chain_gS, HC].
   - (* attribute *)
-    cbn [pp_wf] in Hwf. apply andb_true_iff in Hwf. destruct Hwf as [Hwf Ha].
-    apply andb_true_iff in Hwf. destruct Hwf as [Hch Hwb].
-    destruct (IHb Hwb) as (HCb & _). specialize (HCb Hch).
-    assert (HC : stC (EAttr b a)).
-    { intros rest res Hr [n Hn]. rewrite pp_EAttr. norm_app. apply HCb; [reflexivity|].
-      exists (S n). intros g k Hg Hk. destruct k as [|k]; [lia|].
-      rewrite xp_chain_S, at_punct_same. cbn [tl pp_N]. rewrite Hr. apply Hn; lia. }
-    apply stAll_of_S; [reflexivity|intros _; exact HC|apply chain_gS, HC].
+    cbn [pp_wf] in Hwf. apply andb_true_iff in Hwf. destruct Hwf as [Hwb Ha].
+    specialize (IHb Hwb). destruct (pp_is_chain b) eqn:Hch.
+    + destruct IHb as (HCb & _). specialize (HCb Hch).
+      assert (HC : stC (EAttr b a)).
+      { intros rest res Hr [n Hn]. rewrite pp_EAttr, Hch. norm_app. apply HCb; [reflexivity|].
+        exists (S n). intros g k Hg Hk. destruct k as [|k]; [lia|].
+        rewrite xp_chain_S, at_punct_same. cbn [tl pp_N]. rewrite Hr. apply Hn; lia. }
+      apply stAll_of_S; [cbn [pp_level]; rewrite Hch; reflexivity|intros _; exact HC|].
+      cbn [pp_dot_open]. rewrite Hch. apply chain_gS, HC.
+    + apply stAll_of_O; [cbn [pp_level]; rewrite Hch; reflexivity|exact Hch|].
+      cbn [pp_dot_open]. rewrite Hch.
+      intros rest res [Hp _] Hne [n2 H2]. rewrite pp_EAttr, Hch. norm_app.
+      apply (pdot_O b IHb); [split; [reflexivity|discriminate]|exact Hne|].
+      exists (S n2). intros f Hf. destruct f as [|f]; [lia|].
+      rewrite xp_postfix_S, (at_punct_diff b#"[" b#".") by reflexivity.
+      rewrite (at_punct_diff b#"|" b#".") by reflexivity. rewrite at_punct_same. cbn [tl pp_N].
+      rewrite Hp. apply H2. lia.
   - (* index *)
     cbn [pp_wf] in Hwf. apply andb_true_iff in Hwf. destruct Hwf as [Hwb Hwi].
     specialize (IHb Hwb). specialize (IHi Hwi).
     apply stAll_of_O; [reflexivity|reflexivity|].
     intros rest res Hs Hne [n2 H2]. rewrite pp_EItem. norm_app.
-    apply (ppar_O b IHb); [split; reflexivity|exact Hne|].
+    apply (ppar_O b IHb); [split; [reflexivity|intros _; reflexivity]|exact Hne|].
     destruct (ppar_E i 0 IHi (pp_P b#"]" :: rest)) as [n1 H1]; [apply no_cont_closer; cbn; tauto|].
     exists (S (n1 + n2)). intros f Hf. destruct f as [|f]; [lia|].
     rewrite xp_postfix_S, at_punct_same. cbn [tl]. rewrite H1 by lia. cbn [obind].
@@ -1125,7 +1177,7 @@ Proof.
     specialize (IHb Hwb). pose proof (wf_forall es Hwes IHes) as HF.
     apply stAll_of_O; [reflexivity|reflexivity|].
     intros rest res Hs Hne Hpost. rewrite pp_EFilter. norm_app.
-    apply (ppar_O b IHb); [split; reflexivity|exact Hne|].
+    apply (ppar_O b IHb); [split; [reflexivity|intros _; reflexivity]|exact Hne|].
     apply filter_postfix; assumption.
   - (* call *)
     cbn [pp_wf] in Hwf. apply andb_true_iff in Hwf. destruct Hwf as [Hfn Hwes].
@@ -1136,15 +1188,25 @@ Proof.
     rewrite pp_ECall. cbn [app]. rewrite simple_name by exact Hfn. rewrite pargs_at, Hn by lia. reflexivity.
   - (* module call *)
     cbn [pp_wf] in Hwf. apply andb_true_iff in Hwf. destruct Hwf as [Hwf Hwes].
-    apply andb_true_iff in Hwf. destruct Hwf as [Hwf Hfn].
-    apply andb_true_iff in Hwf. destruct Hwf as [Hch Hwm].
-    destruct (IHm Hwm) as (HCm & _). specialize (HCm Hch). pose proof (wf_forall es Hwes IHes) as HF.
-    assert (HC : stC (EModCall m fn es)).
-    { intros rest res Hr [n Hn]. rewrite pp_EModCall. norm_app. apply HCm; [reflexivity|].
+    apply andb_true_iff in Hwf. destruct Hwf as [Hwm Hfn].
+    specialize (IHm Hwm). pose proof (wf_forall es Hwes IHes) as HF. destruct (pp_is_chain m) eqn:Hch.
+    + destruct IHm as (HCm & _). specialize (HCm Hch).
+      assert (HC : stC (EModCall m fn es)).
+      { intros rest res Hr [n Hn]. rewrite pp_EModCall, Hch. norm_app. apply HCm; [reflexivity|].
+        destruct (pargs_ev es HF rest) as [n1 H1].
+        exists (S (n + n1)). intros g k Hg Hk. destruct k as [|k]; [lia|].
+        rewrite xp_chain_S, at_punct_same. cbn [tl pp_N]. rewrite pargs_at, H1 by lia. cbn [obind]. apply Hn; lia. }
+      apply stAll_of_S; [cbn [pp_level]; rewrite Hch; reflexivity|intros _; exact HC|].
+      cbn [pp_dot_open]. rewrite Hch. apply chain_gS, HC.
+    + apply stAll_of_O; [cbn [pp_level]; rewrite Hch; reflexivity|exact Hch|].
+      cbn [pp_dot_open]. rewrite Hch.
+      intros rest res _ Hne [n2 H2]. rewrite pp_EModCall, Hch. norm_app.
+      apply (pdot_O m IHm); [split; [reflexivity|discriminate]|exact Hne|].
       destruct (pargs_ev es HF rest) as [n1 H1].
-      exists (S (n + n1)). intros g k Hg Hk. destruct k as [|k]; [lia|].
-      rewrite xp_chain_S, at_punct_same. cbn [tl pp_N]. rewrite pargs_at, H1 by lia. cbn [obind]. apply Hn; lia. }
-    apply stAll_of_S; [reflexivity|intros _; exact HC|apply chain_gS, HC].
+      exists (S (n1 + n2)). intros f Hf. destruct f as [|f]; [lia|].
+      rewrite xp_postfix_S, (at_punct_diff b#"[" b#".") by reflexivity.
+      rewrite (at_punct_diff b#"|" b#".") by reflexivity. rewrite at_punct_same. cbn [tl pp_N].
+      rewrite pargs_at, (H1 f f) by lia. cbn [obind]. apply H2. lia.
   - (* test *)
     cbn [pp_wf] in Hwf. apply andb_true_iff in Hwf. destruct Hwf as [Hwf Hwes].
     apply andb_true_iff in Hwf. destruct Hwf as [Hwf Hnot]. apply negb_true_iff in Hnot.
@@ -1361,10 +1423,19 @@ Proof.
       { pose proof (at_punct_len _ _ E). eapply fin_obind; [apply He; lia|]. intros i ts1 H1. unfold lt_len in H1.
         destruct (xp_at_punct b#"]" ts1) eqn:E1; [|apply fin_err]. pose proof (at_punct_len _ _ E1).
         eapply fin_weaken; [|apply Hq; lia]. unfold le_len. intros; lia. }
-      destruct (xp_at_punct b#"|" ts) eqn:E2; [|apply fin_ok; unfold le_len; lia].
-      pose proof (at_punct_len _ _ E2).
-      eapply fin_obind; [apply (filters_fuel (xp_expr f) (length (tl ts))); [apply Hgood; lia|lia|lia]|].
-      cbn beta. intros e' ts1 [H1 H1']. specialize (H1' E2).
+      destruct (xp_at_punct b#"|" ts) eqn:E2.
+      { pose proof (at_punct_len _ _ E2).
+        eapply fin_obind; [apply (filters_fuel (xp_expr f) (length (tl ts))); [apply Hgood; lia|lia|lia]|].
+        cbn beta. intros e' ts1 [H1 H1']. specialize (H1' E2).
+        eapply fin_weaken; [|apply Hq; lia]. unfold le_len. intros; lia. }
+      destruct (xp_at_punct b#"." ts) eqn:E3; [|apply fin_ok; unfold le_len; lia].
+      pose proof (at_punct_len _ _ E3) as Hl3.
+      destruct (tl ts) as [|[[] a] ts1] eqn:Et; try apply fin_err. cbn [length] in Hl3.
+      destruct (xp_at_punct b#"(" ts1) eqn:E4.
+      { pose proof (at_punct_len _ _ E4) as Hl4.
+        eapply fin_obind; [apply (list_fuel (xp_expr f) (length (tl ts1))); [apply Hgood; lia|lia|lia]|].
+        intros args ts2 H2. unfold lt_len in H2.
+        eapply fin_weaken; [|apply Hq; lia]. unfold le_len. intros; lia. }
       eapply fin_weaken; [|apply Hq; lia]. unfold le_len. intros; lia.
     + (* simple *)
       intros ts Hf. rewrite xp_simple_S. unfold xp_simple_body.
